@@ -193,8 +193,12 @@ KANI_ASSUMPTIONS = [
     "Node::name() stubbed by the identity (exact for names without backslash, which is what the harness uses)",
     "index = mock ReadGlobalIndex answering has() per chunk id; backend unused on these paths",
 ]
+# the unchanged-tree short cut (a directory whose serialised tree the index already has is not stored again) and the assembly of
+# the new trees are units of C01's spec (TreeArchiver); they are verified as part of this check as well
+SATELLITES = [("C01", ["OpenFile", "ContentStartpoints", "ParentResult", "TreeType", "tree_new", "tree_add", "ta_add_file", "ta_backup_tree", "ta_add", "ta_finalize"])]
+
 META = {"not_covered": [
     "equality of the resulting tree with a full backup (composition through the archiver)",
     "which snapshots become parents (group / latest selection in ParentOptions::get_parent: iterator adapters; the wiring of the two comparison switches IS a unit), the two iterator chains inside set_dir (name lookup over all parent trees, loading the sub-trees: abstracted; set_dir and finish_dir ARE units), several parent trees",
-    "the unchanged-tree short cut in tree_archiver.rs backup_tree",
+    "the unchanged-tree short cut in tree_archiver.rs backup_tree is a unit of C01 (ta_backup_tree), verified here as satellite",
 ]}
